@@ -130,7 +130,7 @@ def finish(scn):
     return scn
 
 
-def execute(scn, judge, debug=False):
+def execute(scn, judge, debug=False, nontrivial_fn=None):
     """run the scenario, apply judge(scn, obs, world) -> violations"""
     world = World(scn['sched_seed'], step_cap=STEP_CAP, debug=debug)
     try:
@@ -159,6 +159,8 @@ def execute(scn, judge, debug=False):
             world.probe('bounce')
         world.probe('backend:' + scn['backend'])
         nontrivial = any(len(a['attempts']) >= 2 for a in an.values())
+        if nontrivial_fn is not None:
+            nontrivial = bool(nontrivial_fn(scn, obs, an))
         states = set()
         for k, a in an.items():
             st = tuple((att['shape'], tuple(sorted(
